@@ -405,6 +405,26 @@ func verifExpand(re *Regexp, rep string, m *Match, text []rune) string {
 			out += t
 			i++
 		case c >= '0' && c <= '9':
+			if re.options&ECMAScript != 0 {
+				// ECMAScript: the longest run of digits that is the number of an existing group names it;
+				// the remaining digits are literal text
+				j, num := i+1, 0
+				best, bestEnd := "", -1
+				for j < len(r) && r[j] >= '0' && r[j] <= '9' && num < 100000 {
+					num = num*10 + int(r[j]-'0')
+					j++
+					if t, ok := groupText(num); ok {
+						best, bestEnd = t, j
+					}
+				}
+				if bestEnd < 0 {
+					out += "$"
+					continue
+				}
+				out += best
+				i = bestEnd - 1
+				continue
+			}
 			// the whole decimal number names the group; an unknown number leaves the text literal
 			j := i + 1
 			num := 0
@@ -708,13 +728,20 @@ func VerifCheck_args() {
 func VerifCheck_argsescape() {
 	n := verifParamInt("n")
 	s := string(verifBytes("b", n))
-	_ = Escape(s)
-	if _, err := Unescape(s); err != nil {
-		verifReach("unescape-error")
+	part := verifParam("part") // "" = all three on the same bytes; else one of them (deeper n)
+	if part == "" || part == "esc" {
+		_ = Escape(s)
 	}
-	re := verifRE
-	if _, err := re.Replace("ab", s, -1, -1); err != nil {
-		verifReach("replacement-error")
+	if part == "" || part == "unesc" {
+		if _, err := Unescape(s); err != nil {
+			verifReach("unescape-error")
+		}
+	}
+	if part == "" || part == "repl" {
+		re := verifRE
+		if _, err := re.Replace("ab", s, -1, -1); err != nil {
+			verifReach("replacement-error")
+		}
 	}
 	verifReach("end")
 }
